@@ -149,7 +149,12 @@ def t_custom():
             iff("c", "ge", 200, [op("fatalf", site=1)])]
 
 
+def t_ctx():
+    return [op("cleanup", body=[op("ctx")]), op("ctxlive"), draw(g("Int"), "x", "x"), iff("x", "ge", 100000, [op("fatalf", site=1)])]
+
+
 TEMPLATES = {
+    "ctx": t_ctx,
     "threshold": lambda: t_threshold(), "threshold_u8": lambda: t_threshold("Uint8", 200), "threshold_neg": lambda: t_threshold("Int32", -5000, cmp="le"),
     "distinct": t_distinct, "map": t_map, "string": t_string, "filter": t_filter, "sampled": t_sampled,
     "multisite": t_multisite, "errorf_then_panic": t_errorf_then_panic, "nonfatal": t_nonfatal,
@@ -174,6 +179,12 @@ def seeds(rng, n):
 def c01(tier, seed):
     rng = random.Random(seed)
     out = []
+    # rejection-based generators with minimization cut at once: the reported case is the pruned original,
+    # which must replay (forced stops, duplicate keys, over-long strings, skipped actions)
+    for tn in ("distinct", "map", "string", "sm", "custom", "filter"):
+        for sd in seeds(rng, 14 if tier == "quick" else 150):
+            out.append(scenario("c01-pruned-%s-%d-%d" % (tn, sd, len(out)), {"body": TEMPLATES[tn]()},
+                                {"checks": 100, "seed": sd, "nofailfile": "true", "shrinktime": "0s"}, tag={"template": tn, "shrink": "0s"}))
     names = sorted(TEMPLATES)
     nseeds = 3 if tier == "quick" else 60
     for tn in names:
@@ -362,6 +373,12 @@ def c09(tier, seed):
                 fl = {"checks": N, "seed": rng.randrange(1, 1 << 64), "shrinktime": "0s"}
                 out.append(scenario("c09-N%d-%s-%s" % (N, pn, files), prop, fl, runs=[{"files": fs}], name=name,
                                     tag={"N": N, "pattern": pn, "files": files}))
+                if files == "none" and pn in ("never", "data", "always", "skip10N-1"):
+                    # the same through MakeCheck under a real *testing.T (no test deadline: the harness runs with -test.timeout=0)
+                    if pn == "always":
+                        continue   # a failing sub-test would fail the harness binary's own run; covered by the recording TB
+                    out.append(scenario("c09-mk-N%d-%s" % (N, pn), prop, dict(fl, nofailfile="true"), name=name, entry="makecheck",
+                                        tag={"N": N, "pattern": pn, "files": "none", "entry": "makecheck"}))
     return out
 
 
@@ -371,7 +388,7 @@ def c09(tier, seed):
 def c07(tier, seed):
     rng = random.Random(seed)
     out = []
-    n = 6 if tier == "quick" else 80
+    n = 8 if tier == "quick" else 80
     # (a) falsify at every index 1..K, also after skipped cases; then re-run with the printed seed
     for sd in seeds(rng, n):
         K = rng.randrange(1, 12)
@@ -379,13 +396,15 @@ def c07(tier, seed):
         for i in range(1, K):
             if rng.random() < 0.3:
                 cases[str(i)] = [op("skip")]
-        body_fail = [draw(g("Int64"), "x", "x"), draw(g("SliceOfN", elem=g("Byte"), minLen=0, maxLen=4), "s"),
-                     op(rng.choice(["fatalf", "panic", "errorf"]), site=1)]
+        how = rng.choice(["fatalf", "panic", "errorf", "ES", "CE", "CuE", "fatalfc"]) if len(out) >= 7 else \
+            ["fatalf", "panic", "errorf", "ES", "CE", "CuE", "fatalfc"][len(out)]
+        tail = {"ES": BEHAVIOURS["ES"], "CE": BEHAVIOURS["CE"], "CuE": BEHAVIOURS["CuE"]}.get(how, [op(how, site=1)])
+        body_fail = [draw(g("Int64"), "x", "x"), draw(g("SliceOfN", elem=g("Byte"), minLen=0, maxLen=4), "s")] + tail
         cases[str(K)] = body_fail
         prop = {"keyed": True, "cases": cases, "default": [draw(g("Int64"), "x"), draw(g("Bool"), "d")]}
         fl = {"checks": 20, "seed": sd, "nofailfile": "true", "shrinktime": "0s"}
         out.append(scenario("c07-idx-%d-%d" % (sd, K), prop, fl,
-                            runs=[{}, {"seedPrev": True, "expect": "seed_prev"}], tag={"failAt": K}))
+                            runs=[{}, {"seedPrev": True, "expect": "seed_prev"}], tag={"failAt": K, "how": how}))
     # (b) random base seed (flag 0): the printed seed must still reproduce
     for i in range(n):
         tn = rng.choice(["threshold", "distinct", "map", "multisite", "sm", "string"])
